@@ -226,6 +226,9 @@ def match_finding(stage, job):
     if stage == "signal":
         if "asn1p_parse: Assertion `!TQ_FIRST" in err and has_of_with_sized_of_element(text):
             return "C10-of-of-size-assert"
+        if job["rc"] == -6 and "Cannot compile" in err and "asn1c_lang_C_type_SEQUENCE: Assertion `arg->target->target == OT_TYPE_DECLS" in err \
+           and re.search(r"\{[^{}]*\b(SEQUENCE|SET)\s*\{[^{}]*\.&[A-Z][\w-]*\s*\(\s*\{[^{}]*\}\s*\{\s*@", strip_comments(text)):
+            return "C10-component-emitter-failure-assert"
         if job["rc"] == -11 and left_recursive_choice(text):
             return "C11-leftrec-crash"
     if stage in ("build", "cxx"):
